@@ -19,7 +19,8 @@ Z4 = [rat(0)] * 4
 def pd_for(model, a, b, m, n, stack_dirs, t, mu=3):
     return dict(model=model, a=rat(a), b=rat(b), r=rat(0), sina=rat(0), cosa=rat(1), m=m, n=n,
                 fl=[[Z4, Z4], [Z4, Z4], [SSW, SSW]],
-                stack=[dict(dir=d, t=rat(t), mat=ORTHO) for d in stack_dirs], off=rat(0),
+                stack=[dict(dir=d, t=rat(t[k] if isinstance(t, (tuple, list)) else t), mat=ORTHO)
+                       for k, d in enumerate(stack_dirs)], off=rat(0),
                 y1=rat(0), y2=rat(b), mu=rat(mu), Ncte=[rat(0)] * 3)
 
 
@@ -48,12 +49,14 @@ def first_eigs(pd, N, kind):
 
 
 CASES = [(a, b, dirs, t) for (a, b) in [(1, 1), (2, 1), (1, 2), (5, 1), (1, 5), (Fraction(3, 2), 1)]
-         for (dirs, t) in [([[0, 1], [1, 0], [0, 1]], Fraction(1, 8)), ([[0, 1]], Fraction(1, 4)), ([[1, 0]], Fraction(1, 4))]]
+         for (dirs, t) in [([[0, 1], [1, 0], [0, 1]], Fraction(1, 8)), ([[0, 1]], Fraction(1, 4)), ([[1, 0]], Fraction(1, 4)),
+                           # plies of different thickness (mid-plane symmetric, so still D16 = D26 = B = 0)
+                           ([[0, 1], [1, 0], [0, 1]], (Fraction(1, 16), Fraction(1, 4), Fraction(1, 16)))]]
 LOADS = [(-1.0, 0.0, 0.0), (0.0, -1.0, 0.0), (-1.0, -1.0, 0.0), (-1.0, -0.5, 0.0)]
 
 
-def case_key(a, b, dirs, kind, N):
-    return "%s|%s|%s|%s|%s" % (a, b, dirs, kind, N)
+def case_key(a, b, dirs, kind, N, t=None):
+    return "%s|%s|%s|%s|%s" % (a, b, dirs, kind, N) + ("|t=%s" % (list(map(str, t)),) if isinstance(t, (tuple, list)) else "")
 
 
 def sequences(tier, rng):
@@ -79,7 +82,7 @@ def calibrate():
             p = panelmat.build_panel(pd)
             p.calc_k0(silent=True)
             D = p.lam.D
-            h, mu = p.lam.t, 3.0
+            h, mu = float(sum(t) if isinstance(t, (tuple, list)) else t * len(dirs)), 3.0
             best = 1e99
             for pp in range(1, 13):
                 for qq in range(1, 13):
@@ -90,7 +93,7 @@ def calibrate():
             val = v if kind == "buckling" else v * v
             err = max(val / best - 1, 0.0)
             eps = max(10 * err, 1e-9)
-            tab[case_key(a, b, dirs, kind, N)] = dict(measured=err, eps=float("%.3g" % eps))
+            tab[case_key(a, b, dirs, kind, N, t)] = dict(measured=err, eps=float("%.3g" % eps))
     json.dump(dict(note="convergence allowance of C15's closed-form clause at the highest series order of each case: "
                         "10 x the relative excess over the closed form measured on the pinned tree (floor 1e-9)",
                    table=tab), open(CAL, "w"), indent=1, sort_keys=True)
@@ -157,7 +160,7 @@ def run(tier, seed, build):
         flag = dict(ortho=True) if ks % 2 == 1 else {}
         for (m, n) in orders:
             vals.append(first_eigs(dict(pd_for(model, a, b, m, n, dirs, t), **flag), N, kind))
-        eps = cal[case_key(a, b, dirs, kind, N)]["eps"]
+        eps = cal[case_key(a, b, dirs, kind, N, t)]["eps"]
         events.append(dict(ev="seq", id=len(events), pd=dict(pd_for(model, a, b, orders[-1][0], orders[-1][1], dirs, t), **flag),
                            kind=kind, N=[rat(Fraction(x)) for x in N], orders=[list(o) for o in orders],
                            vals=[dyadic(v) for v in vals], eps=rat(Fraction(eps).limit_denominator(10 ** 12))))
